@@ -132,6 +132,7 @@ type voteSpec struct {
 	Sig          sigKind
 	OtherSigner  int
 	ClaimedPower int64
+	ZeroPower    bool // the vote's own power field says 0 (ClaimedPower 0 means "the validator's real power")
 	NoExtension  bool
 	SignedPrices map[string]*big.Int // sigOverOtherExtension: what the reused signature was really given for
 }
@@ -234,6 +235,9 @@ func (o *OracleEnv) BuildCommit(height uint64, round int32, specs []voteSpec) []
 		power := s.ClaimedPower
 		if power == 0 {
 			power = v.Power
+		}
+		if s.ZeroPower {
+			power = 0 // the power field of a submitted vote is whatever the submitter writes there
 		}
 		eci.Votes = append(eci.Votes, cometabci.ExtendedVoteInfo{
 			Validator:          cometabci.Validator{Address: v.Addr(), Power: power},
